@@ -57,16 +57,24 @@ def two_system_cases():
     import desolver as de
     cases = []
     k = 0
-    for meth in ("RK4", "BackwardEuler", "RK45CK"):
+    for meth, preused in (("RK4", False), ("BackwardEuler", False), ("RK45CK", False), ("RK45CK", True), ("BackwardEuler", True), ("RadauIIA5", True)):
         calls = [0]
 
         def f(t, y):
             calls[0] += 1
             return -y
         shared = de.DiffRHS(f)
+        if preused:
+            # the wrapper was evaluated (and asked for a finite-difference Jacobian) by the user BEFORE a system was built from it: the
+            # system counts the calls made through the system since its construction
+            for _ in range(3):
+                shared(0.0, np.array([1.0]))
+            shared.jac(0.0, np.array([1.0]))
+        pre = calls[0]
         a = de.OdeSystem(shared, np.array([1.0]), t=(0.0, 1.0), dt=0.25, rtol=1e-6, atol=1e-6)
         a.method = meth
         seen, real = [], []
+        calls[0] -= pre
         c0 = calls[0]
         seen.append(a.nfev); real.append(c0)
         a.integrate(0.5)
@@ -84,7 +92,7 @@ def two_system_cases():
         b.reset()
         seen.append(a.nfev); real.append(ca)
         cases.append({"id": k, "clause": "C20.CountersPerSystem", "mode": "exact", "seqA": [int(x) for x in seen], "seqB": [int(x) for x in real],
-                      "okA": True, "okB": True, "units": 0, "tolUnits": 0, "method": meth})
+                      "okA": True, "okB": True, "units": 0, "tolUnits": 0, "method": meth + (" (wrapper used before the system was built)" if preused else "")})
         k += 1
     return cases
 
